@@ -106,6 +106,13 @@ class C05(L1Prop):
     ]
     # the write lock is held by another connection while the request asks for its transaction (and is
     # let go as soon as that call returns); one lock-wait budget (5 s) per case
+    # the COMMIT itself fails (the log cannot grow): every storage step of the request succeeded, the
+    # commit is answered with an I/O error and SQLite has rolled the transaction back
+    FSIZEKINDS = [
+        ("fsize-lib-av", "fsizefault 32 3", "av 1 latest:1 r:200000"),
+        ("fsize-http-av", "fsizefault 32 3", "http POST av hyph=latest:1 hyph=1 history r:200000"),
+        ("fsize-lib-as", "fsizefault 32 3", "as 1 latest:1 r:200000"),
+    ]
     LOCKKINDS = [
         ("lock-lib-av", "lockbegin clients UPDATE", "av 1 latest:1 b:6,4"),
     ]
@@ -115,7 +122,7 @@ class C05(L1Prop):
         maxidx = 13
         for s in range(nstates):
             seed = rng.getrandbits(32)
-            for (kname, rf, req) in self.ROWKINDS + (self.LOCKKINDS if s == 0 or tier == "thorough" else []):
+            for (kname, rf, req) in self.ROWKINDS + self.FSIZEKINDS + (self.LOCKKINDS if s == 0 or tier == "thorough" else []):
                 ops = state_prefix(random.Random(seed), (1, 2))
                 ops += ["dumpall", "dump 9", rf, req, "dumpall", "dump 9",
                         "http GET gcv hyph=nil hyph=1 absent e", "http POST av hyph=latest:1 hyph=1 history b:77",
